@@ -334,6 +334,8 @@ class AEval(dtable.Eval):
                         pass
                     finally:
                         self.depth -= 1
+            if p == "Self" and (env.get("#Self") or (getattr(self, "_impl_stack", None) and self._impl_stack[-1])):
+                return C(env["#Self"][1] if env.get("#Self") else self._impl_stack[-1])           # the tuple-struct constructor of the impl's own type
             if p.split("::")[-1][:1].isupper():
                 return C(p.split("::")[-1])
             if p in ("Box::new", "Into::into", "From::from", "Rc::new", "Arc::new", "Some", "Ok", "Err", "std::convert::identity"):
@@ -891,6 +893,8 @@ class AEval(dtable.Eval):
                 raise Unknown("parameter pattern")
             env.update(b)
         self.depth += 1
+        if fn.impl_self:
+            env["#Self"] = ("str", fn.impl_self.split("<")[0].split("::")[-1].lstrip("&"))
         if not hasattr(self, "_impl_stack"):
             self._impl_stack = []
         self._impl_stack.append((fn.impl_self or "").split("<")[0].split("::")[-1])
@@ -1341,6 +1345,8 @@ class AEval(dtable.Eval):
                     self._write_back(e["args"], env)
                     return v
             if last[:1].isupper():
+                if last == "Self" and (env.get("#Self") or (getattr(self, "_impl_stack", None) and self._impl_stack[-1])):
+                    last = env["#Self"][1] if env.get("#Self") else self._impl_stack[-1]          # `Self(..)` in an impl of a tuple struct (also inside a closure run elsewhere)
                 return C(last, *args)
             if f["path"] in ("Vec::new", "Vec::with_capacity", "BTreeMap::new", "BTreeSet::new", "HashMap::new", "HashSet::new", "VecDeque::new"):
                 return L()
@@ -2473,6 +2479,8 @@ class AEval(dtable.Eval):
             if b is None:
                 raise Unknown("parameter pattern")
             env.update(b)
+        if fn.impl_self:
+            env["#Self"] = ("str", fn.impl_self.split("<")[0].split("::")[-1].lstrip("&"))
         self.last_env = env       # what the function did to its `&mut` parameters can be read here afterwards
         if not hasattr(self, "_mutparams_stack"):
             self._mutparams_stack = []
